@@ -18,7 +18,7 @@
   size ≤ 2^31 (resp. < 2^31 = INT_MAX+1); `ring_move_head_size_witness` shows
   that the bound is necessary for the code as written (recorded finding).
 -/
-import IgrisModel.C03.More4
+import IgrisModel.C03.More5
 namespace Igris.C03
 open Igris.Proto
 
@@ -1164,5 +1164,111 @@ theorem ring_get_head_place_moved {α : Type} (dflt : α) (t : TRing α) (q : Li
     t.headPlace = t.get t.r.head.toNat ∧
     TRing.resize dflt t.move.2 n = TRing.mk' dflt n :=
   ⟨fun i hi => h.2.2.2 i hi, rfl, rfl⟩
+
+/-! ## 26. round 3b: where the repaired `push` / `emplace` still leave a slot without
+a living object — `emplace` with an aliasing argument, a throwing copy constructor -/
+
+/-- ring_emplace_alias_exact: `r.emplace(r.head_place())` (the argument aliases the
+head slot; `emplace` has no aliasing test, `push` has one) on a ring whose slots
+all hold living objects, in ANY fill state: indices and values end up exactly as
+after `r.push(r.head_place())` (the slot keeps its value, the head moves on), every
+slot holds a living object again, nothing is constructed over a living object and
+no destructor runs on a dead slot — but the copy constructor has read the object
+that `place->~T()` had just destroyed: EXACTLY ONE copy from a dead object.
+Harmless for trivially destructible `T`, undefined behaviour otherwise (finding
+`C03-emplace-alias-head-slot`). -/
+theorem ring_emplace_alias_exact {α : Type} (v : VRing α) (g : VRing.Good v) :
+    ∃ v', v.emplaceSelf = some v' ∧ v'.t.buf = v.t.buf ∧ v'.t.r = ringMoveHeadOne v.t.r ∧
+      v'.live = List.replicate v'.t.buf.length true ∧
+      v'.overLive = 0 ∧ v'.deadDtor = 0 ∧ v'.deadRead = 1 ∧
+      v'.ctor = v.ctor + 1 ∧ v'.dtor = v.dtor + 1 := by
+  obtain ⟨v', e, ht, h⟩ := VRing.emplaceSelf_good g
+  exact ⟨v', e, by rw [ht]; rfl, by rw [ht]; rfl, h⟩
+
+/-- `ring<T>(1); emplace(head_place()); ~ring`: 1 copy from a dead object; the same
+script with `push(head_place())`: none -/
+theorem ring_emplace_alias_witness :
+    ((VRing.mk' (0 : Int) 1).emplaceSelf.map fun v => (v.destroy.overLive, v.destroy.deadDtor, v.destroy.deadRead)) =
+      some (0, 0, 1) ∧
+    ((VRing.mk' (0 : Int) 1).pushSelf.destroy.deadRead = 0) := by
+  decide
+
+/-- ring_push_throwing_copy_exact: exception safety of the repaired `push(obj)`,
+`place->~T(); new (place) T(obj);`, when `T(obj)` throws, on a ring whose slots
+all hold living objects, in ANY fill state.
+* STRONG guarantee for everything C03 speaks about: head, tail, size and every
+  stored value are what they were (`v'.t = v.t`: avail, room, tail(), last(),
+  get_last … all answer as before the call).
+* The BASIC guarantee fails for the objects: the head slot — and only it — is left
+  without a living object; no forbidden event has happened YET.
+* Scope exit then runs exactly one destructor on the dead slot (one destructor
+  call more than constructor calls); a retried `push(x)` instead runs that one
+  destructor on the dead slot, stores `x` exactly as the push on the original ring
+  would have, and every slot holds a living object again.
+(Finding `C03-ring-push-throwing-copy`.) -/
+theorem ring_push_throwing_copy_exact {α : Type} (v : VRing α) (g : VRing.Good v) (x : α) :
+    ∃ v', v.pushThrow = some v' ∧ v'.t = v.t ∧
+      (∀ i, v'.live.getD i false = (decide (i < v.t.buf.length) && decide (i ≠ v.t.r.head.toNat))) ∧
+      v'.overLive = 0 ∧ v'.deadDtor = 0 ∧ v'.deadRead = 0 ∧
+      v'.destroy.deadDtor = 1 ∧ v'.destroy.dtor = v'.destroy.ctor + 1 ∧
+      ∃ v'', v'.push x = some v'' ∧ v.t.push x = some v''.t ∧ v''.deadDtor = 1 ∧ v''.overLive = 0 ∧
+        v''.live = List.replicate v''.t.buf.length true := by
+  obtain ⟨v', e, ht, hl, h1, h2, h3, -, -⟩ := VRing.pushThrow_good g
+  obtain ⟨a1, a2, v'', e2, b1, b2, b3, b4⟩ := VRing.pushThrow_after g e x
+  refine ⟨v', e, ht, ?_, h1, h2, h3, a1, a2, v'', e2, b4, b1, b2, b3⟩
+  intro i
+  rw [hl, List.getD_eq_getElem?_getD, List.getElem?_set]
+  by_cases hi : i < v.t.buf.length <;> by_cases hh : v.t.r.head.toNat = i <;>
+    simp [hi, hh, List.getElem?_replicate, Ne.symm, eq_comm]
+
+example : VRing.Good (VRing.mk' (0 : Int) 2) := VRing.mk'_good 0 2 (by decide)
+
+/-- `ring<T>(1); push(x) with a throwing T(x); ~ring`: (constructed over a living
+object, destructor on a dead slot, constructor calls, destructor calls) = (0, 1, 2, 3) -/
+theorem ring_push_throwing_copy_witness :
+    ((VRing.mk' (0 : Int) 1).pushThrow.map fun v =>
+      (v.destroy.overLive, v.destroy.deadDtor, v.destroy.ctor, v.destroy.dtor)) = some (0, 1, 2, 3) := by
+  decide
+
+/-! ## 27. round 3b: `unbounded_array::fill / clear / begin / end / operator=` -/
+
+/-- unbounded_array_fill: on an array of ANY size whose slots all hold living objects,
+`fill(val)` — the range-for from `begin()` to `end()` — terminates within `size()`
+steps, never stores outside the array, assigns to living objects only, constructs
+and destroys nothing, and leaves exactly `size()` copies of `val`;
+`end() − begin() = size()`. -/
+theorem unbounded_array_fill {α : Type} (a : UArr α) (g : UArr.Good a) (val : α) :
+    ∃ a', a.fill val = some a' ∧ a'.data = List.replicate a.data.length val ∧
+      a'.live = List.replicate a.data.length true ∧ a'.deadAssign = 0 ∧ a'.deadDtor = 0 ∧
+      a'.ctor = a.ctor ∧ a'.dtor = a.dtor ∧ a.iterEnd - a.iterBegin = a.data.length := by
+  obtain ⟨a', e, ga, hd, hc, hdt⟩ := UArr.fillLoop_spec val a.data.length 0 a g (Nat.zero_le _) (Nat.le_refl _)
+  have hd' : a'.data = List.replicate a.data.length val := by simpa using hd
+  refine ⟨a', e, hd', ?_, ga.asg, ga.dead, hc, hdt, rfl⟩
+  rw [ga.live, hd', List.length_replicate]
+
+example : UArr.Good (UArr.mk' (0 : Int) 3) := UArr.mk'_good 0 3
+
+/-- unbounded_array_clear_assign: `clear()` destroys every element exactly once and
+leaves an empty array whose destructor has nothing left to destroy; `x = x`
+(self-assignment) is the identity — no element touched; `x = y` leaves exactly the
+elements of `y`, every old element destroyed once, every new one constructed once,
+the ledger balanced again; `resize(n)` likewise with `n` value-initialised elements. -/
+theorem unbounded_array_clear_assign {α : Type} (dflt : α) (a : UArr α) (g : UArr.Good a) (s : List α) (n : Nat) :
+    (a.clear.data = [] ∧ a.clear.dtor = a.dtor + a.data.length ∧ a.clear.deadDtor = 0 ∧
+      a.clear.ctor = a.clear.dtor ∧ a.clear.invalidate = a.clear) ∧
+    a.assign none = a ∧
+    ((a.assign (some s)).data = s ∧ UArr.Good (a.assign (some s)) ∧
+      (a.assign (some s)).dtor = a.dtor + a.data.length ∧ (a.assign (some s)).ctor = a.ctor + s.length) ∧
+    ((a.resize dflt n).data = List.replicate n dflt ∧ UArr.Good (a.resize dflt n)) := by
+  obtain ⟨h1, h2, h3, g'⟩ := UArr.invalidate_good g
+  have hl : a.live.length = a.data.length := by rw [g.live, List.length_replicate]
+  refine ⟨⟨rfl, ?_, h2, h3, ?_⟩, rfl, ⟨rfl, ?_, ?_, rfl⟩, rfl, ?_⟩
+  · simp only [UArr.clear, UArr.invalidate, hl]
+  · simp [UArr.clear, UArr.invalidate, LRing.deadCount]
+  · refine ⟨rfl, h2, g.asg, ?_⟩
+    simp only [UArr.assign, UArr.invalidate, hl]; have := g.bal; omega
+  · simp only [UArr.assign, UArr.invalidate, hl]
+  · refine ⟨by simp [UArr.resize], h2, g.asg, ?_⟩
+    simp only [UArr.resize, UArr.invalidate, hl, List.length_replicate]; have := g.bal; omega
 
 end Igris.C03
